@@ -215,7 +215,7 @@ pub fn check_state(rp: &Position, board: &Board, played: bool, props: &Props, wa
                 }
             }
             let cb = match (cb, twin) {
-                (Some(c), Some(t)) => Some(if c == t { c } else { t }),
+                (Some(c), Some(t)) => Some(if c == t || props.carry_played { c } else { t }),
                 (None, t) => t,
                 (c, None) => c,
             };
@@ -230,6 +230,9 @@ pub struct E1Config {
     pub props: Props,
     /// full is_legal / refusal sweep on states of depth <= 2 and on every `stride`-th state
     pub sweep_stride: u64,
+    /// only moves whose destination lies in this set are followed (every transition is still
+    /// checked): lets a small move alphabet be explored to a large depth
+    pub dest_filter: Option<u64>,
 }
 
 /// path (as uci strings) from the root to state `idx`
@@ -290,6 +293,11 @@ pub fn run_e1(root: &Root, cfg: &E1Config, report: &Report, samples: &mut Vec<Va
                     // the transition INTO such a state was checked above, the state itself is out of scope
                     if c.rp.full > 9999 || c.rp.half > 9999 {
                         continue;
+                    }
+                    if let Some(mask) = cfg.dest_filter {
+                        if mask & (1u64 << c.mv.to) == 0 {
+                            continue;
+                        }
                     }
                     let Some(cb) = c.board else { continue };
                     let k = key_of(&c.rp);
@@ -378,6 +386,16 @@ pub enum Family {
     /// optionally a black knight on one of the pawn's capture squares: single pushes, double
     /// pushes and pawn captures that give (or do not give) direct check
     PawnPush,
+    /// two own pieces of the same kind (rooks or bishops) pinned at once, one along a line it can
+    /// move on and one along a line it cannot (immobile), by two enemy sliders; own king on a few
+    /// squares, every pair of directions, distances 1-2: the per-kind pinned-piece loops must
+    /// handle an immobile pinned piece before a mobile one
+    TwoPins,
+    /// white pawn on the 7th with the black king directly in front of it, a capturable black man
+    /// diagonally in front, a white rook or queen behind the pawn on its file: the capturing
+    /// promotion gives check along the 8th rank AND uncovers a check along the file (two checkers of
+    /// the same line class); every move and every reply is checked
+    PromoDouble,
     /// one white officer (queen, rook, bishop, knight) anywhere, black king anywhere, white king in
     /// a corner, optionally a black man on one of the officer's target squares: officer moves and
     /// officer captures that give (or do not give) direct check - every move is played
@@ -531,6 +549,92 @@ pub fn family_positions(fam: Family, level: u8) -> Vec<Position> {
                             out.push(p);
                             if level == 0 {
                                 break;
+                            }
+                        }
+                    }
+                }
+            }
+        }
+        Family::TwoPins => {
+            let dirs: [(i8, i8); 8] = [(1, 0), (-1, 0), (0, 1), (0, -1), (1, 1), (1, -1), (-1, 1), (-1, -1)];
+            for wk in [4u8, 27, 0, 63, 28, 36] {
+                let (kf, kr) = ((wk % 8) as i8, (wk / 8) as i8);
+                for kind in [Pc::R, Pc::B] {
+                    for (ia, da) in dirs.iter().enumerate() {
+                        for (ib, db) in dirs.iter().enumerate() {
+                            if ia == ib {
+                                continue;
+                            }
+                            // piece A on a line it cannot move along, piece B on one it can
+                            let a_straight = da.0 == 0 || da.1 == 0;
+                            let b_straight = db.0 == 0 || db.1 == 0;
+                            let (a_ok, b_ok) = if kind == Pc::R { (!a_straight, b_straight) } else { (a_straight, !b_straight) };
+                            if !a_ok || !b_ok {
+                                continue;
+                            }
+                            for (pa, qa) in [(1i8, 2i8), (1, 3), (2, 3), (2, 4)] {
+                                for (pb, qb) in [(1i8, 2i8), (1, 3), (2, 3), (2, 4)] {
+                                    let cell = |d: &(i8, i8), n: i8| -> Option<u8> {
+                                        let (f, r) = (kf + d.0 * n, kr + d.1 * n);
+                                        if (0..8).contains(&f) && (0..8).contains(&r) {
+                                            Some(sq(f, r))
+                                        } else {
+                                            None
+                                        }
+                                    };
+                                    let (Some(a), Some(xa), Some(b), Some(xb)) = (cell(da, pa), cell(da, qa), cell(db, pb), cell(db, qb)) else { continue };
+                                    let mut p = Position::empty();
+                                    p.turn = Col::W;
+                                    p.full = 1;
+                                    let pinner = |straight: bool| if straight { Pc::R } else { Pc::B };
+                                    let mut ok = place(&mut p, wk, Col::W, Pc::K);
+                                    ok &= place(&mut p, a, Col::W, kind);
+                                    ok &= place(&mut p, b, Col::W, kind);
+                                    ok &= place(&mut p, xa, Col::B, pinner(a_straight));
+                                    ok &= place(&mut p, xb, Col::B, if level == 0 { pinner(b_straight) } else { Pc::Q });
+                                    if !ok {
+                                        continue;
+                                    }
+                                    for bk in [63u8, 56, 7, 0, 31, 24] {
+                                        let mut q = p.clone();
+                                        if place(&mut q, bk, Col::B, Pc::K) && q.valid_root().is_ok() {
+                                            out.push(q);
+                                            break;
+                                        }
+                                    }
+                                }
+                            }
+                        }
+                    }
+                }
+            }
+        }
+        Family::PromoDouble => {
+            for f in 0..8i8 {
+                for side in [-1i8, 1] {
+                    if !(0..8).contains(&(f + side)) {
+                        continue;
+                    }
+                    for victim in [Pc::N, Pc::B, Pc::R] {
+                        for behind in [Pc::R, Pc::Q] {
+                            for br in 0..6i8 {
+                                let mut base = Position::empty();
+                                base.turn = Col::W;
+                                base.full = 1;
+                                place(&mut base, sq(f, 6), Col::W, Pc::P);
+                                place(&mut base, sq(f, 7), Col::B, Pc::K);
+                                place(&mut base, sq(f + side, 7), Col::B, victim);
+                                place(&mut base, sq(f, br), Col::W, behind);
+                                for wk in [0u8, 7, 4, 16, 23, 40, 47] {
+                                    let mut p = base.clone();
+                                    if !place(&mut p, wk, Col::W, Pc::K) || p.valid_root().is_err() {
+                                        continue;
+                                    }
+                                    out.push(p);
+                                    if level == 0 {
+                                        break;
+                                    }
+                                }
                             }
                         }
                     }
@@ -856,6 +960,18 @@ pub fn run_family(fam: Family, level: u8, props: &Props, child_props: Option<&Pr
 
 /// replay of a `state` case: rebuild by playing the moves from the root, run the oracles
 pub fn replay_state(root_fen: &str, moves: &[String], props: &Props) -> Vec<Divergence> {
+    // both ways of getting there: continuing from the rebuilt twin after a wrong successor (the
+    // default exploration) and carrying the board reached by play through the whole history
+    let mut d = replay_state_mode(root_fen, moves, props, false);
+    for x in replay_state_mode(root_fen, moves, props, true) {
+        if !d.iter().any(|y| y.class == x.class && y.detail == x.detail) {
+            d.push(x);
+        }
+    }
+    d
+}
+
+fn replay_state_mode(root_fen: &str, moves: &[String], props: &Props, carry_played: bool) -> Vec<Divergence> {
     let rp0 = Position::from_fen(root_fen).unwrap_or_else(|e| machinery_failure(&format!("replay root: {e}")));
     let Ok(mut board) = parse_board(root_fen) else {
         return vec![Divergence::new("root-rejected", format!("'{root_fen}' rejected"))];
@@ -875,7 +991,7 @@ pub fn replay_state(root_fen: &str, moves: &[String], props: &Props) -> Vec<Dive
             },
         }
         if let Ok(t) = parse_board(&crp.to_fen()) {
-            if t != board {
+            if t != board && !carry_played {
                 board = t;
             }
         }
